@@ -38,12 +38,22 @@ Print Assumptions C18_plain_writes_fifo.
 
 (* dpipe: a batch written on one end is read on the other in order, one message per read, each
    cut only to the length of the reader's slice. *)
-Theorem C18_dpipe_fifo : forall ms p k, dclosed0 p = false -> dclosed1 p = false -> ch1 p = [] ->
+Theorem C18_dpipe_fifo : forall ms p k, dclosed0 p = false -> dclosed1 p = false -> wexp0 p = false -> ch1 p = [] ->
   zlen ms <= dp_cap ->
   dp_run p (map (DWrite 0) ms ++ map (fun _ => DRead 1 k) ms) =
   map (fun m => [zlen m; 0]) ms ++ map (fun m => 0 :: zlen (zfirstn k m) :: zfirstn k m) ms.
 Proof. exact dp_fifo. Qed.
 Print Assumptions C18_dpipe_fifo.
+
+(* dpipe: a write whose end's write deadline has passed fails and discards what that end had queued (dpipe.cleanWriteBuffer); it
+   never touches the messages travelling the other way *)
+Theorem C18_dpipe_write_timeout_is_local : forall p side m,
+  (if side =? 0 then dclosed0 p else dclosed1 p) = false -> (if side =? 0 then wexp0 p else wexp1 p) = true ->
+  snd (dp_step p (DWrite side m)) = [0; 4] /\
+  (if side =? 0 then ch0 else ch1) (fst (dp_step p (DWrite side m))) = (if side =? 0 then ch0 else ch1) p /\
+  dclosed0 (fst (dp_step p (DWrite side m))) = dclosed0 p /\ dclosed1 (fst (dp_step p (DWrite side m))) = dclosed1 p.
+Proof. exact dp_write_timeout_local. Qed.
+Print Assumptions C18_dpipe_write_timeout_is_local.
 
 (* dpipe: whether the other end is closed changes neither the answer nor the effect of any
    operation of this end. *)
